@@ -80,7 +80,7 @@ extern "C" void sbv_harness(const char*)
     const configurable_t& obj  = sbv_cfg_is("obj", "solver") ? static_cast<const configurable_t&>(*lbfgs) : plain;
 
     // the symbolic name: length in [0, L], every byte arbitrary (non-zero, to keep C-string helpers of the library well defined)
-    char       name[16] = {0};
+    char       name[64] = {0};
     const long len      = sbv_range("len", 0, L);
     for (long i = 0; i < L; ++i)
     {
